@@ -311,3 +311,116 @@ def _scope_prog(rnd):
     L += body("module", 3, 0, False)
     L += use("a", 0) + use("b", 0)
     return "\n".join(L) + "\n"
+
+# ---------------------------------------------------------------- generators / iteration (C05)
+GEN_POOL = '''def g_count(n):
+    i = 0
+    while i < n:
+        yield i
+        i += 1
+def g_send():
+    total = 0
+    while True:
+        x = yield total
+        if x is None:
+            x = 1
+        total += x
+        if total > 20:
+            return total
+def g_fin(n):
+    try:
+        for i in range(n):
+            try:
+                yield ('a', i)
+            finally:
+                print('inner-fin', i)
+    finally:
+        print('outer-fin')
+def g_ret():
+    yield 1
+    return 'retval'
+def g_from():
+    r = yield from g_ret()
+    print('got', r)
+    yield 'after'
+    r2 = yield from g_count(2)
+    print('got2', r2)
+def g_raise():
+    yield 1
+    raise ValueError('boom')
+    yield 2
+def g_nested():
+    for x in g_count(2):
+        for y in g_count(2):
+            yield (x, y)
+def g_from_send():
+    r = yield from g_send()
+    yield ('done', r)
+'''
+SHOW = '''def show(label, f):
+    try:
+        print(label, f())
+    except StopIteration as e:
+        print(label, 'StopIteration')
+    except ValueError:
+        print(label, 'ValueError')
+    except KeyError:
+        print(label, 'KeyError')
+    except TypeError:
+        print(label, 'TypeError')
+'''
+
+def generator_history_programs(seed, n):
+    rnd = random.Random(seed * 2654435761 % (2**31) + 3)
+    gens = ["g_count(3)", "g_send()", "g_fin(2)", "g_ret()", "g_from()", "g_raise()", "g_nested()", "g_from_send()", "g_count(0)"]
+    out = []
+    for k in range(n):
+        live = [rnd.choice(gens) for _ in range(rnd.randint(1, 3))]
+        L = [GEN_POOL, SHOW] + ["G%d = %s" % (i, g) for i, g in enumerate(live)]
+        for step in range(rnd.randint(3, 12)):
+            i = rnd.randrange(len(live))
+            if rnd.random() < 0.65:
+                L.append("show('n%d', lambda: next(G%d))" % (i, i))
+            else:
+                v = rnd.choice(["None", "5", "7", "30"])
+                L.append("show('s%d', lambda: G%d.send(%s))" % (i, i, v))
+        out.append(("\n".join(L) + "\n", dict(live=live)))
+    return out
+
+CONSUMERS = [
+    ("for", "r = []\nfor x in IT:\n    r.append(x)\nprint(r)"),
+    ("listcomp", "print([x for x in IT])"),
+    ("genexp", "print(list(x for x in IT))"),
+    ("unpack3", "a, b, c = IT\nprint(a, b, c)"),
+    ("unpack_star", "a, *b = IT\nprint(a, b)"),
+    ("starcall", "def f(*a): return a\nprint(f(*IT))"),
+    ("list", "print(list(IT))"), ("tuple", "print(tuple(IT))"), ("set", "print(sorted(set(IT)))"),
+    ("sum", "print(sum(IT))"), ("min", "print(min(IT))"), ("max", "print(max(IT))"), ("sorted", "print(sorted(IT))"),
+    ("zip", "print(list(zip(IT, [10, 20, 30, 40])))"), ("zip2", "print(list(zip([10, 20, 30, 40], IT)))"),
+    ("map", "print(list(map(lambda v: v + 1, IT)))"), ("filter", "print(list(filter(lambda v: v % 2, IT)))"),
+    ("enumerate", "print(list(enumerate(IT)))"), ("any", "print(any(v > 5 for v in IT), any(IT2))"), ("all", "print(all(IT))"),
+    ("in", "print(2 in IT)"), ("notin", "print(99 not in IT)"), ("join", "print(','.join(str(v) for v in IT))"),
+    ("join_direct", "print(','.join(ITS))"), ("dictcomp", "print(sorted({str(v): v for v in IT}))"),
+    ("iter_next", "i = iter(IT)\nprint(next(i), next(i))"),
+]
+PRODUCERS = {
+    "generator": "def prod(k, how):\n    for i in range(3):\n        if i == k:\n            if how == 'key': raise KeyError('k')\n            if how == 'stopinst': raise StopIteration()\n            if how == 'stopcls': raise StopIteration\n        yield i + 1\n",
+    "userclass": "class Prod:\n    def __init__(self, k, how): self.i = 0; self.k = k; self.how = how\n    def __iter__(self): return self\n    def __next__(self):\n        if self.i == self.k:\n            if self.how == 'key': raise KeyError('k')\n            if self.how == 'stopinst': raise StopIteration()\n            if self.how == 'stopcls': raise StopIteration\n        if self.i >= 3: raise StopIteration\n        self.i += 1\n        return self.i\ndef prod(k, how): return Prod(k, how)\n",
+    "getitem": "class Seq:\n    def __init__(self, k, how): self.k = k; self.how = how\n    def __getitem__(self, i):\n        if i == self.k and self.how == 'key': raise KeyError('k')\n        if i >= 3 or (i == self.k and self.how != 'key'): raise IndexError('done')\n        return i + 1\ndef prod(k, how): return Seq(k, how)\n",
+    "builtin": "def prod(k, how): return iter([1, 2, 3][:k if how != 'none' and how != 'key' else 3])\n",
+}
+
+def consumer_programs():
+    """every consumer x every producer kind x every position at which the producer stops or raises"""
+    out = []
+    for pname, psrc in PRODUCERS.items():
+        for cname, csrc in CONSUMERS:
+            for k in (0, 1, 2, 3):
+                for how in ("none", "key", "stopinst", "stopcls"):
+                    if pname == "builtin" and how == "key": continue
+                    if pname == "generator" and how in ("stopinst", "stopcls"): continue   # PEP 479: differs between 3.4 and the oracle
+                    if how == "none" and k != 3: continue
+                    body = csrc.replace("IT2", "prod(%d, %r)" % (k, how)).replace("ITS", "(str(v) for v in prod(%d, %r))" % (k, how)).replace("IT", "prod(%d, %r)" % (k, how))
+                    src = psrc + "try:\n" + "\n".join("    " + l for l in body.split("\n")) + "\nexcept KeyError:\n    print('KeyError')\nexcept ValueError:\n    print('ValueError')\nexcept StopIteration:\n    print('StopIteration escaped')\nexcept TypeError:\n    print('TypeError')\n"
+                    out.append((src, dict(producer=pname, consumer=cname, k=k, how=how)))
+    return out
